@@ -159,6 +159,11 @@ Definition spec_accepts (s : spec) (op : map_op) (o : out) : option spec :=
       | None => if fk =? k then expect o (OutKV stamp 0) (put s (mkKV k stamp 0))
                 else match o with OutLibPanic => Some s | _ => None end        (* refuses a non-equivalent value *)
       end
+  | OpSetToggle k stamp =>
+      match lookup s k with
+      | Some _ => expect o (OutBool false) (delete s k)
+      | None => expect o (OutBool true) (put s (mkKV k stamp 0))
+      end
   | OpSetRemove k =>
       match lookup s k with
       | Some _ => expect o (OutBool true) (delete s k)
@@ -180,7 +185,7 @@ Fixpoint nodup_keys (l : list kv) : bool :=
 Definition op_new_elems (op : map_op) : list kv :=
   match op with
   | OpInsert k st v | OpTryInsert k st v | OpEntryOrInsert k st v | OpEntryInsert k st v => [mkKV k st v]
-  | OpSetInsert k st | OpSetReplace k st | OpSetGetOrInsert k st | OpSetGetOrInsertWith k st _ => [mkKV k st 0]
+  | OpSetInsert k st | OpSetReplace k st | OpSetGetOrInsert k st | OpSetGetOrInsertWith k st _ | OpSetToggle k st => [mkKV k st 0]
   | OpEntryAndModify k st _ v => [mkKV k st v]
   | OpExtend kvs => kvs
   | _ => []
